@@ -3,7 +3,7 @@
 //@ pre-unwind: strlen.0:7 install_cert.8:7 install_tc.4:7 install_crl.4:7
 //@ props: C18 C08
 //@ bounded: certificate, key, trusted-CA and CRL data are strings of 0..5 bytes (so that at most 5 PEM objects are read from each: the read loops are unwound 6 times with unwinding assertions); trusted-CA and CRL data may be absent
-//@ expect: postcondition>=6 canary=4
+//@ expect: postcondition>=7 canary=6
 #include "_unit_cs.h"
 void harness(void)
 {
@@ -15,5 +15,7 @@ void harness(void)
     if (ctx == NULL) XV_CANARY("failure");
     if (ctx != NULL && tc == NULL && crl == NULL) XV_CANARY("context without trusted CAs and CRLs");
     if (ctx != NULL && tc != NULL && crl != NULL) XV_CANARY("context with trusted CAs and CRLs");
+    if (ctx == NULL && xv_pem_malformed && xv_x509_live >= 0 && xv_ssl_used_cert) XV_CANARY("malformed object after the leaf certificate was installed");
+    if (ctx != NULL && !xv_pem_malformed && xv_err_first == 0) XV_CANARY("success with an empty error queue");
     if (ctx != NULL && xv_tc_added >= 2) XV_CANARY("two or more trusted certificates");
 }
